@@ -527,6 +527,20 @@ class StoreModel:
                 m = prog.find_method(self.cls.qname, attr)
                 if m is not None and depth < 6:
                     return self._inline(m, args, kwargs, conds, out, handlers, depth, e, f)
+            # methods of a project object held in an attribute or a local (`self._files = _Files(dbutils)` ...
+            # `self._files.put(p, x)`): summarised through the method's own body
+            ob = recv
+            if isinstance(ob, tuple) and len(ob) == 2 and ob[0] == "attr":
+                ob = self.attr_defs.get(ob[1], ob)
+            if isinstance(ob, tuple) and len(ob) >= 2 and ob[0] == "obj" and ob[1] in prog.classes and depth < 6:
+                m = prog.find_method(ob[1], attr)
+                if m is not None and m.cls is not None and m.cls.qname != self.cls.qname:
+                    subs = self.__dict__.setdefault("_subs", {})
+                    sub = subs.get(m.cls.qname)
+                    if sub is None:
+                        sub = subs[m.cls.qname] = StoreModel(prog, m.cls, self.types)
+                    r = sub._inline(m, args, kwargs, conds, out, handlers, depth, e, f)
+                    return expand_attrs(r, sub)
             if attr == "joinpath":
                 jt = flatten(("join", recv) + tuple(args))
                 if hasattr(self, "join_sites"):
